@@ -170,6 +170,11 @@ def fold_numeric(expr, subst, _depth=0, dyadic=False):
           return int(Fraction(vals[0]))      # truncation toward zero, exact on an exactly representable value
         return bool(vals[0]) if dotted(n.func) == 'bool' else vals[0]
       return {'abs': lambda v: abs(v[0]), 'min': min, 'max': max}[dotted(n.func)](vals)
+    if isinstance(n, ast.Call) and (dotted(n.func) or '').split('.')[-1] == 'Fraction' and 1 <= len(n.args) <= 2 and not n.keywords:
+      parts = [ev(a_, env, depth) for a_ in n.args]
+      if any(isinstance(p_, bool) or p_ is NONE for p_ in parts) or (len(parts) == 2 and parts[1] == 0):
+        raise ValueError
+      return Fraction(parts[0]) / Fraction(parts[1]) if len(parts) == 2 else Fraction(parts[0])
     if isinstance(n, ast.Call) and dyadic and len(n.args) == 1 and not n.keywords and \
         dotted(n.func) in ('math.ceil', 'math.floor', 'np.ceil', 'np.floor', 'numpy.ceil', 'numpy.floor'):
       import math
